@@ -100,6 +100,51 @@ static void do_builder(hctx* h, const el_t* cols, int ncols) {
     h->n_lines++;
 }
 
+/* The builder under allocation failure: names of `namelen` bytes, so that the arena behind the builder needs a fresh block
+ * every few dozen columns; EVERY add call is first made with the next allocation request failing (a call that allocates
+ * nothing simply succeeds) and repeated if it reported an error.  Afterwards the schema must be exactly the columns that were
+ * added, once each, in order: a failed call leaves nothing behind.  Judged on the C side. */
+extern void h_alloc_arm(long fail_at);
+extern long h_alloc_disarm(void);
+extern long h_alloc_fired;
+static void do_builder_faults(hctx* h, int ncols, int namelen, uint64_t seed) {
+    fprintf(h->out, "schema_builder_faults ncols=%d namelen=%d seed=%llu", ncols, namelen, (unsigned long long)seed); h_call(h);
+    carquet_error_t err; memset(&err, 0, sizeof err);
+    carquet_schema_t* s = carquet_schema_create(&err);
+    char* name = (char*)h_alloc((size_t)namelen + 32);
+    long fired0 = h_alloc_fired; int failed_calls = 0, ok = s != NULL, stuck = 0;
+    uint64_t x = seed | 1;
+    for (int i = 0; i < ncols && s; i++) {
+        x ^= x << 13; x ^= x >> 7; x ^= x << 17;
+        int k = snprintf(name, 32, "c%d_", i); memset(name + k, 'a' + (int)(x % 26), (size_t)namelen); name[k + namelen] = 0;
+        int pt = (int)((x >> 8) % 7); if (pt == 3) pt = 2;
+        int rep = (int)((x >> 16) % 3);
+        h_alloc_arm(1);
+        carquet_status_t st = carquet_schema_add_column(s, name, (carquet_physical_type_t)pt, NULL, (carquet_field_repetition_t)rep, 0);
+        (void)h_alloc_disarm();
+        if (st != CARQUET_OK) { failed_calls++; st = carquet_schema_add_column(s, name, (carquet_physical_type_t)pt, NULL, (carquet_field_repetition_t)rep, 0); if (st != CARQUET_OK) stuck = 1; }
+    }
+    long fired = h_alloc_fired - fired0;
+    if (s) {
+        if (carquet_schema_num_elements(s) != ncols + 1 || carquet_schema_num_columns(s) != ncols) ok = 0;
+        x = seed | 1;
+        for (int i = 0; i < ncols && ok; i++) {
+            x ^= x << 13; x ^= x >> 7; x ^= x << 17;
+            int k = snprintf(name, 32, "c%d_", i); memset(name + k, 'a' + (int)(x % 26), (size_t)namelen); name[k + namelen] = 0;
+            int pt = (int)((x >> 8) % 7); if (pt == 3) pt = 2;
+            const carquet_schema_node_t* nd = carquet_schema_get_element(s, i + 1);
+            if (!nd || !carquet_schema_node_name(nd) || strcmp(carquet_schema_node_name(nd), name) != 0) ok = 0;
+            else if (!carquet_schema_node_is_leaf(nd) || (int)carquet_schema_node_physical_type(nd) != pt) ok = 0;
+            else if ((int)carquet_schema_node_repetition(nd) != (int)((x >> 16) % 3)) ok = 0;
+            if (ok && carquet_schema_find_column(s, name) != i) ok = 0;
+        }
+    }
+    fprintf(h->out, " | nel=%d n=%d failed_calls=%d fired=%ld p_failed_calls_leave_nothing=%d p_retry_succeeds=%d\n",
+            s ? carquet_schema_num_elements(s) : -1, s ? carquet_schema_num_columns(s) : -1, failed_calls, fired, ok, !stuck);
+    if (s) carquet_schema_free(s);
+    free(name); h->n_lines++;
+}
+
 /* random well-formed subtree appended at e[*n]; returns nothing, fills nchild */
 static void gen_tree(hctx* h, el_t* e, int* n, int cap, int depth, int is_root) {
     int me = (*n)++;
@@ -180,6 +225,8 @@ static void gen_schema(hctx* h) {
         do_builder(h, cols, ncols);
         free(cols);
     }
+    for (int t = 0; t < (h->thorough ? 8 : 2); t++)
+        do_builder_faults(h, 150 + (int)h_below(h, 200), t % 2 ? 1000 : 300 + (int)h_below(h, 700), h_next(h));
     fprintf(h->out, "#stat wellformed_trees %ld\n#stat malformed_trees %ld\n#stat builder_seqs %ld\n", wf, mal, seqs);
 }
 
@@ -208,6 +255,7 @@ static int replay_schema(hctx* h, const h_line* l) {
         do_build(h, e, n, !strcmp(l->op, "schema_find") ? h_in(l, "name") : NULL);
         free(e); return 1;
     }
+    if (!strcmp(l->op, "schema_builder_faults")) { do_builder_faults(h, (int)h_ll(h_in(l, "ncols")), (int)h_ll(h_in(l, "namelen")), (uint64_t)strtoull(h_in(l, "seed"), NULL, 10)); return 1; }
     if (!strcmp(l->op, "schema_builder")) {
         el_t* e; int n = parse_els(h_in(l, "cols"), &e);
         do_builder(h, e, n); free(e); return 1;
